@@ -108,5 +108,40 @@ CHECKS = {
              "estimate_prox_parameter positive/finite and equal to alpha/diag(W^T M^-1 W).",
         note="Trusted: exact comparisons for the orthant, 1e-14 relative for the ball. Alphabet only.",
         design="§3 C27"),
+    "C01": dict(
+        level="exploration", engine="grid",
+        technique="exhaustive enumeration of the integer grid {-2..3}^4\\0 (complete for rational identities of per-variable degree <= 4, DESIGN 2.3) plus generic letters; exact-rational and complex-step derivative oracles",
+        text="P over the full grid (1295) + generic, 6 scales, Q over {-1,0,1}^4 (quick) / the full grid (thorough), 30 angular velocities: orthonormality, det +1, scale invariance, product "
+             "homomorphism, T*T^-1 = I, spin identity, Exp_SO3_quat_P against an exact rational quotient rule and the complex step; algebra helpers on {-2..2}^3.",
+        note="Complete under the assumption that the implementation computes a rational function of the stated degree class (true for the code and its sign/index/factor mutations); otherwise grid + generic letters only.",
+        design="§3 C01, §2.3"),
+    "C02": dict(
+        level="exploration", engine="grid",
+        technique="exhaustive enumeration of direction x magnitude ladders (down to 1e-12 and up to nextafter(pi)), all exact and near half turns of an integer-quaternion family and all signed permutation matrices; 60-digit mpmath reference maps bound to the code by a conformance pass",
+        text="Exp/Log round trips for 29 directions x 22 magnitudes, Exp(Log A) = A and Spurrier for 874 quaternion matrices (p0 in {0,1e-12..1e-3,1,2}) and the 24 signed permutations, T*T^-1 and "
+             "spin identity on [0,2pi), the same through Exp_SE3/Log_SE3.",
+        note="Trusted: mpmath reference (re-bound in every case to mp.expm). Rotation vectors between ladder rungs are not covered.",
+        design="§3 C02"),
+    "C03": dict(
+        level="exploration", engine="grid",
+        technique="exhaustive enumeration of direction x log-uniform magnitude ladder (1e-12 .. pi-1e-2) x rate letters; every derivative routine against central differences of a 60-digit reference map",
+        text="Exp_SO3_psi, T_SO3_psi, T_SO3_dot, T_SO3_inv_psi, Log_SO3_A (tangentially), Exp_SE3_h, Log_SE3_H on 29 directions x 19 magnitudes x 4 rates x 3 translations; quaternion tangent-map "
+             "derivatives on the full integer grid.",
+        note="Trusted: mpmath reference with step 1e-25. Tolerance 1e-6*scale (healthy-routine noise peaks at 5e-9).",
+        design="§3 C03"),
+    "C04": dict(
+        level="exploration", engine="grid",
+        technique="exhaustive product enumeration of quaternion letters (all of {-1,0,1}^4 up to sign, scaled, generic non-unit) x positions x inertias x velocity/acceleration/offset letters; flow-derivative and exact-affine oracles",
+        text="RigidBody (54 quaternions x positions x inertias x 8 u x 3 u_dot x 5 offsets), PointMass, Frame (5 motion families with supplied derivatives): v_P, a_P, B_Omega, B_Psi as time derivatives "
+             "along the kinematic equation, J_P/q_dot_u/B_J_R exact affine, kappa terms, every _q/_u partial, quaternion length rate 0, gyroscopic power 0, M SPD, E_kin.",
+        note="Trusted: independent quaternion rotation, 5-point stencil with error estimate. Frames without supplied derivatives are a loose diagnostic only (outside the quantifier).",
+        design="§3 C04"),
+    "C26": dict(
+        level="model_checking", engine="statebfs",
+        technique="explicit-state exploration of operation histories (memoised evaluations interleaved with step_callback / set_reference_strains / re-assembly / deepcopy) on real objects vs a cache-free twin; fixpoint where the cache state space is finite",
+        text="RigidBody (argument variants incl. -0.0, int vs float, in-place mutated shared arrays), rods of all interpolations, Sphere2Sphere contact bases, Mesh1D.eval_basis (alias alphabet, evicting alphabets): "
+             "states merged by a digest of cache contents and reachable arrays; every memoised result must equal the twin whose caches (found by generic attribute discovery) are cleared before each call.",
+        note="Trusted: generic cache discovery (cachetools/lru caches reachable from the objects); depth-bounded families (depth 3-5) are not closed.",
+        design="§3 C26"),
 }
 NOT_APPLICABLE = {}
